@@ -127,6 +127,9 @@ where
     }
     if let Some(p) = &f.path {
         apis.push(("read_shapes_as(path)", classify(panicmon::catch(|| shapefile::read_shapes_as::<_, S>(p)))));
+        // the complete one-liner (a table of n rows sits next to the file)
+        apis.push(("shapefile::read_as(path)", classify(panicmon::catch(|| shapefile::read_as::<_, S, shapefile::dbase::Record>(p).map(|v| v.into_iter().map(|(s, _)| s).collect::<Vec<S>>())))));
+        apis.push(("Reader::from_path.read_as", classify(panicmon::catch(|| Reader::from_path(p).and_then(|mut r| r.read_as::<S, shapefile::dbase::Record>()).map(|v| v.into_iter().map(|(s, _)| s).collect::<Vec<S>>())))));
     }
     // the complete reader's typed routes (a table of n rows next to the shapes)
     if !f.shx.is_empty() && !cfg!(miri) {
@@ -227,6 +230,7 @@ pub fn run(ctx: &Ctx) -> Report {
                 let p = format!("{}/t{}_{}.shp", dir, t, k);
                 std::fs::write(&p, &shp).expect("harness: write file");
                 std::fs::write(format!("{}/t{}_{}.shx", dir, t, k), &shx).expect("harness: write file");
+                std::fs::write(format!("{}/t{}_{}.dbf", dir, t, k), dbf_with_rows(n)).expect("harness: write file");
                 Some(p)
             };
             // the record's type code as stored, against the harness table
@@ -261,6 +265,23 @@ pub fn run(ctx: &Ctx) -> Report {
             let shp = std::fs::read(format!("{}/{}.shp", dir, name)).expect("harness: read foreign shp");
             let declared = (crate::rawshp::header_len_words(&shp).unwrap_or(50).max(50) as usize * 2).min(shp.len());
             let n = crate::rawshp::walk(&shp[..declared]).len();
+            // identity of the two conversions on shapes that did NOT come out of a constructor (stored
+            // boxes unrelated to the vertices, open rings, absent measures): concrete -> Shape -> concrete
+            if let Ok(Ok(shapes)) = panicmon::catch(|| ShapeReader::new(Cursor::new(shp.clone())).and_then(|r| r.read())) {
+                for (k, sh) in shapes.iter().enumerate() {
+                    if matches!(sh, Shape::NullShape) {
+                        continue;
+                    }
+                    let before = sh.d();
+                    let back = panicmon::catch(|| for_type!(typed, S => S::try_from(crate::shapes::clone_shape(sh)).map(|c| Shape::from(c).d())));
+                    rep.eval();
+                    rep.count("identity_checked_on_shapes_decoded_from_foreign_files", 1);
+                    let ok = matches!(&back, Ok(Ok(d)) if *d == before);
+                    if !ok {
+                        rep.violation(&format!("identity-on-decoded-shape({})", type_name(typed)), &format!("c06:foreign-identity:{}:{}", name, k), J::obj(vec![("file", J::s(name.clone())), ("record", J::UInt(k as u64)), ("decoded", before.to_json())]));
+                    }
+                }
+            }
             files.push(TestFile { t: typed, shp, shx: vec![], n, path: None });
             foreign += 1;
         }
